@@ -53,8 +53,11 @@ pub(crate) fn pq_str(pq: u32) -> &'static str {
   }
 }
 pub(crate) fn did_str(d: u32) -> String {
-  if KIND.with(|k| k.get()) == 'I' {
+  let kind = KIND.with(|k| k.get());
+  if kind == 'I' {
     format!("did:iota:0x{}", format!("{:02x}", (d * 0x11) as u8).repeat(32))
+  } else if kind == 'J' {
+    format!("did:ex:i{}", d)
   } else {
     format!("did:ex:d{}", d)
   }
@@ -80,7 +83,7 @@ pub(crate) fn id_of(u: &DIDUrl) -> Id {
   let mid = u.did().method_id();
   let did = match mid.strip_prefix("0x") {
     Some(h) if h.len() >= 2 => u32::from_str_radix(&h[..2], 16).map(|b| b / 0x11).unwrap_or(999),
-    _ => mid.trim_start_matches('d').parse().unwrap_or(999),
+    _ => mid.trim_start_matches(|c| c == 'd' || c == 'i').parse().unwrap_or(999),
   };
   let pq = match (u.path().filter(|p| !p.is_empty()), u.query().filter(|q| !q.is_empty())) {
     (None, None) => 0,
